@@ -295,6 +295,8 @@ def b64decode_items(items: list) -> list:
     """base64.b64decode(validate=False) for inputs whose characters are all in
     the alphabet (plus trailing '=' padding); anything else is unsupported."""
     import binascii
+    # validate=False discards characters outside the alphabet: done here for concrete ones (line endings)
+    items = [c for c in items if not (isinstance(c, int) and c != 61 and not _is_b64(c))]
     n = len(items)
     pad = 0
     while pad < n and pad < 2 and items[n - 1 - pad] == 61:
